@@ -32,11 +32,13 @@ import (
 type failer struct {
 	r    *vrt.DirectReport
 	seen map[string]bool
+	pfx  string // goes in front of every clause (history scenarios: what happened before the request)
 }
 
 func newFailer(r *vrt.DirectReport) *failer { return &failer{r: r, seen: map[string]bool{}} }
 
 func (f *failer) fail(clause, format string, a ...any) {
+	clause = f.pfx + clause
 	if f.seen[clause] {
 		return
 	}
@@ -181,7 +183,8 @@ func resolveScenario(r *vrt.DirectReport, tier string) {
 	qRoles := append(append([]string{}, roles...), "r9")
 	// e1 follows the existence pattern, e2 the complementary pattern (so that existence is per entry, not per
 	// folder), sub/e3 follows the pattern again (entry in a sub-folder)
-	entries := []string{"e1", "e2", "sub/e3"}
+	// e0 follows the pattern too but its content is the empty string: it exists all the same
+	entries := []string{"e1", "e2", "sub/e3", "e0"}
 	qEntries := append(append([]string{}, entries...), "e9")
 	components := []string{"c1", "c9"} // c9 has no entries at all; c2 is a distractor that has everything
 
@@ -198,6 +201,9 @@ func resolveScenario(r *vrt.DirectReport, tier string) {
 				if has {
 					k := "c1/" + c[0] + "/" + c[1] + "/" + e
 					t[k] = "payload of " + k
+					if e == "e0" {
+						t[k] = ""
+					}
 				}
 			}
 			for _, e := range qEntries {
@@ -217,7 +223,7 @@ func resolveScenario(r *vrt.DirectReport, tier string) {
 			}
 		}
 	}
-	r.Notes = append(r.Notes, fmt.Sprintf("grid: all %d existence patterns over cells %v x entries %v (e2 = complementary pattern) x queries: components %v x run types %v x roles %v x entries %v; distractor component c2 always complete",
+	r.Notes = append(r.Notes, fmt.Sprintf("grid: all %d existence patterns over cells %v x entries %v (e2 = complementary pattern, e0 = entries whose content is the empty string) x queries: components %v x run types %v x roles %v x entries %v; distractor component c2 always complete",
 		nPatterns, cells, entries, components, qRunTypes, qRoles, qEntries))
 }
 
@@ -297,6 +303,75 @@ func checkResolve(r *vrt.DirectReport, f *failer, svc *local.Service, t tree, co
 	} else if gerr == nil {
 		f.fail("get:missing-entry-returns-payload:"+site, "%s: no entry at %s, yet payload %q without error", witness(), exact, pl)
 	}
+}
+
+// ---- scenario: resolution after the configuration changed ------------------------
+
+// resolveHistoryScenario: ONE service over a backend whose content changes between requests (entries
+// appear, disappear, change their content). A query must resolve against what exists at the time of
+// the request, whatever the same service was asked before.
+func resolveHistoryScenario(r *vrt.DirectReport, tier string) {
+	f := newFailer(r)
+	f.pfx = "after-change:"
+	dir := scratchDir()
+	defer os.RemoveAll(dir)
+	file := filepath.Join(dir, "backend.yaml")
+	runTypes := []string{"PHYSICS", "ANY"}
+	roles := []string{"r1", "any"}
+	if tier == "thorough" {
+		runTypes = []string{"PHYSICS", "TECHNICAL", "ANY"} // 6 cells, 4096 ordered pairs of patterns
+	}
+	var cells [][2]string
+	for _, rt := range runTypes {
+		for _, ro := range roles {
+			cells = append(cells, [2]string{rt, ro})
+		}
+	}
+	entries := []string{"e1", "sub/e3"}
+	qRunTypes := append(append([]string{}, runTypes...), "COSMICS")
+	qRoles := []string{"r1", "any", "r9"}
+	mk := func(pat, gen int) tree {
+		t := tree{}
+		for i, c := range cells {
+			if pat&(1<<i) != 0 {
+				for _, e := range entries {
+					k := "c1/" + c[0] + "/" + c[1] + "/" + e
+					t[k] = fmt.Sprintf("payload of %s (written %d)", k, gen)
+				}
+			}
+		}
+		return t
+	}
+	nPatterns := 1 << len(cells)
+	pairs := 0
+	for p1 := 0; p1 < nPatterns; p1++ {
+		for p2 := 0; p2 < nPatterns; p2++ {
+			// a fresh service per pair: first every query against pattern p1, then the file changes to p2
+			t1 := mk(p1, 1)
+			writeBackend(file, t1)
+			svc := newService(file)
+			f.pfx = "" // the first round is the plain property (also decided by the resolve scenario)
+			for _, rt := range qRunTypes {
+				for _, ro := range qRoles {
+					for _, e := range entries {
+						checkResolve(r, f, svc, t1, "c1", rt, ro, e, runTypes, roles)
+					}
+				}
+			}
+			t2 := mk(p2, 2)
+			writeBackend(file, t2)
+			f.pfx = "after-change:"
+			for _, rt := range qRunTypes {
+				for _, ro := range qRoles {
+					for _, e := range entries {
+						checkResolve(r, f, svc, t2, "c1", rt, ro, e, runTypes, roles)
+					}
+				}
+			}
+			pairs++
+		}
+	}
+	r.Notes = append(r.Notes, fmt.Sprintf("grid: all %d ordered pairs of existence patterns over cells %v x entries %v on one service instance each (backend file rewritten in between, contents differ between the two writes) x queries: run types %v x roles %v, asked before and after the change", pairs, cells, entries, qRunTypes, qRoles))
 }
 
 // ---- scenario 2/3: path query strings --------------------------------------
@@ -790,6 +865,132 @@ func payloadScenario(r *vrt.DirectReport, tier string) {
 	r.Samples = append(r.Samples, fmt.Sprintf("entry %q with {v1=x} -> %q", source(templates[2].segs), render(templates[2].segs, siblings, binding{"v1": "x"})))
 }
 
+// ---- scenario: payloads on one service across folders, entries and content changes ----
+
+// payloadHistoryScenario: two processed retrievals in a row on ONE service, of entries in the same or in
+// different folders (same and different entry names, inclusion of a sibling that differs per folder), each
+// with its own variables; then the content of the second entry is changed, the template cache invalidated
+// (the documented way to make a change visible) and the entry retrieved again.
+func payloadHistoryScenario(r *vrt.DirectReport, tier string) {
+	f := newFailer(r)
+	dir := scratchDir()
+	defer os.RemoveAll(dir)
+	file := filepath.Join(dir, "backend.yaml")
+	lit := func(s string) seg { return seg{lit: s} }
+	v := func(n string) seg { return seg{varName: n} }
+	base := map[string][]seg{
+		"one":          {lit("A<"), v("v1"), lit(">B")},
+		"with-include": {lit("head "), v("v1"), lit(" "), {include: "part"}},
+		"part":         {lit("[part "), v("v2"), lit("]")},
+		"override":     {lit("o="), {override: "v1"}, lit(";")},
+	}
+	names := []string{"one", "with-include", "part", "override"}
+	folders := []string{"c1/PHYSICS/r1", "c1/ANY/any", "c1/PHYSICS/r1/deep", "c2/PHYSICS/r1"}
+	// per folder the same entry names with contents that differ by a folder mark
+	content := func(folder string, gen int) map[string][]seg {
+		m := map[string][]seg{}
+		for _, n := range names {
+			mark := fmt.Sprintf("<%s#%d>", folder, gen)
+			m[n] = append([]seg{lit(mark)}, base[n]...)
+		}
+		return m
+	}
+	write := func(gens map[string]int) map[string]map[string][]seg {
+		all := map[string]map[string][]seg{}
+		t := tree{}
+		for _, fo := range folders {
+			all[fo] = content(fo, gens[fo])
+			for n, sg := range all[fo] {
+				t[fo+"/"+n] = source(sg)
+			}
+		}
+		writeBackend(file, t)
+		return all
+	}
+	bindings := []binding{{}, {"v1": "x", "v2": "y"}, {"v1": "y1", "p_v1": "px"}}
+	if tier == "thorough" {
+		bindings = append(bindings, binding{"v2": "z"}, binding{"v1": "", "v2": "a,b"})
+	}
+	type req struct {
+		folder, name string
+	}
+	var reqs []req
+	for _, fo := range folders {
+		for _, n := range names {
+			reqs = append(reqs, req{fo, n})
+		}
+	}
+	rel := func(a, b req) string {
+		switch {
+		case a == b:
+			return "same-entry"
+		case a.folder == b.folder:
+			return "same-folder"
+		case a.name == b.name:
+			return "other-folder-same-entry-name"
+		}
+		return "other-folder"
+	}
+	var calls int64
+	ask := func(svc *local.Service, all map[string]map[string][]seg, q req, b binding, what, clausePfx string, prev string) {
+		qq, err := componentcfg.NewQuery(q.folder + "/" + q.name)
+		if err != nil {
+			f.fail("wellformed-query-rejected", "NewQuery(%q): %v", q.folder+"/"+q.name, err)
+			return
+		}
+		in := map[string]string{}
+		for k, x := range b {
+			in[k] = x
+		}
+		want := render(all[q.folder][q.name], all[q.folder], b)
+		var got string
+		var gerr error
+		witness := func() string {
+			return fmt.Sprintf("%s: entry %s/%s = %q with %v (%s)", what, q.folder, q.name, source(all[q.folder][q.name]), b, prev)
+		}
+		guard(f, "process-call", witness, func() { got, gerr = svc.GetAndProcessComponentConfiguration(qq, in) })
+		calls++
+		verdict := "ok"
+		if gerr != nil {
+			verdict = "error"
+			f.fail(clausePfx+"processing-error", "%s: error %v", witness(), gerr)
+		} else if got != want {
+			verdict = "differs"
+			f.fail(clausePfx+"wrong-payload", "%s: got %q, want %q", witness(), got, want)
+		}
+		r.Count(what + " -> " + verdict)
+	}
+	for _, q1 := range reqs {
+		for _, q2 := range reqs {
+			for _, b1 := range bindings {
+				for _, b2 := range bindings {
+					gens := map[string]int{}
+					all := write(gens)
+					svc := newService(file)
+					ask(svc, all, q1, b1, "first request", "", "fresh service")
+					relation := rel(q1, q2)
+					ask(svc, all, q2, b2, "second request, "+relation, "second-request:"+relation+":", fmt.Sprintf("after %s/%s with %v", q1.folder, q1.name, b1))
+					if b1.String() != bindings[1].String() {
+						continue // the change of content is played once per pair of entries and second binding
+					}
+					// the content of every entry of q2's folder changes (the included sibling too)
+					gens[q2.folder] = 1
+					all = write(gens)
+					svc.InvalidateComponentTemplateCache()
+					ask(svc, all, q2, b2, "after content change and cache invalidation, "+relation, "after-invalidation:", fmt.Sprintf("content rewritten, cache invalidated; before: %s/%s", q1.folder, q1.name))
+					qq, _ := componentcfg.NewQuery(q2.folder + "/" + q2.name)
+					raw, gerr := svc.GetComponentConfiguration(qq)
+					r.Count("verbatim after content change")
+					if gerr != nil || raw != source(all[q2.folder][q2.name]) {
+						f.fail("after-change:verbatim-differs", "GetComponentConfiguration(%s/%s) after the content changed = %q, %v; want %q", q2.folder, q2.name, raw, gerr, source(all[q2.folder][q2.name]))
+					}
+				}
+			}
+		}
+	}
+	r.Notes = append(r.Notes, fmt.Sprintf("grid: all ordered pairs of %d entries (folders %v x names %v; contents carry a folder mark, with-include includes the folder's own part) x ordered pairs of %d bindings on one service; then content of the second entry's folder rewritten + InvalidateComponentTemplateCache + third retrieval; %d processed retrievals", len(reqs), folders, names, len(bindings), calls))
+}
+
 // ---- opt-in scenario: corner cases the statement does not clearly cover -----
 
 // edgeScenario is NOT part of the default C20 run (see registry.json: scenarios).
@@ -858,11 +1059,13 @@ func main() {
 	logrus.SetOutput(io.Discard)
 	vrt.Main([]*vrt.Scenario{
 		{Name: "resolve", Prop: "C20", Direct: resolveScenario, Doc: "every existence pattern of the candidate entries x every query: ResolveComponentQuery / GetComponentConfiguration against the first-existing reference"},
+		{Name: "resolve-history", Prop: "C20", Direct: resolveHistoryScenario, Doc: "one service, backend rewritten between requests: every ordered pair of existence patterns, queries before and after the change"},
 		{Name: "path-strings", Prop: "C20", Direct: pathStringsScenario, Doc: "all short token strings through NewQuery / NewEntriesQuery against a regex-free reference parser"},
 		{Name: "path-product", Prop: "C20", Direct: pathProductScenario, Doc: "product of well- and ill-formed components, run types, roles, entries and surrounding blanks through NewQuery / NewEntriesQuery"},
 		{Name: "param-strings", Prop: "C20", Direct: paramStringsScenario, Doc: "all short token strings through NewQueryParameters against a regex-free reference parser"},
 		{Name: "param-product", Prop: "C20", Direct: paramProductScenario, Doc: "1..3 well- and ill-formed key=value pairs with every joiner through NewQueryParameters"},
 		{Name: "edge", Prop: "C20", Direct: edgeScenario, Doc: "OPT-IN, not in the default run: HTML-special characters in variable values; folders named like the entry"},
+		{Name: "payload-history", Prop: "C20", Direct: payloadHistoryScenario, Doc: "two processed retrievals on one service across folders / entries / variables, then a content change with cache invalidation"},
 		{Name: "payload", Prop: "C20", Direct: payloadScenario, Doc: "entry contents with 0..2 variables x every ordered pair of supplied-variable sets: GetAndProcessComponentConfiguration against reference substitution"},
 	})
 }
